@@ -51,6 +51,8 @@ WellFormed(d, ver) ==
        /\ d.additional = <<>> /\ d.addline = <<>>
        /\ (ver = "37") => d.args.po = <<>>
 
+StripOp(s) == [s EXCEPT !.instrs = [j \in DOMAIN s.instrs |-> SubSeq(s.instrs[j], 1, 4)]]
+
 Clauses(e) ==
     LET ver == e.ver
         ok == e.out.exc = "" /\ e.out.unreadable = ""
@@ -80,6 +82,8 @@ Clauses(e) ==
         \* the data's block boundaries are exactly the jump targets (what a decoder can give back)
         canonical == \E i \in DOMAIN allprops : allprops[i][1] = "P13.targets" /\ allprops[i][2]
         ok0 == e.out.exc = ""
+        sem == NZ!Sem(cS, scale, c.cpy_lines)
+        sem0 == NZ!Sem(c0S, scale, c0.cpy_lines)
     IN <<
         <<"ENV.dis", ok => U!DisRead(c, scale) = c.dis>>,
         <<"ENV.lines", ok => cpylines = c.cpy_lines>>,
@@ -95,7 +99,14 @@ Clauses(e) ==
         <<"P01.identical", (e.src = "decoded" /\ e.rt.ran /\ ok) => e.rt.same>>,
         \* ---------------- C05 / C06 (events whose input data is normalize(from_code(c0)))
         <<"ENV.dis0", e.has_c0 => U!DisRead(c0, scale) = c0.dis>>,
-        <<"P05.sem", (e.has_c0 /\ ok) => NZ!Sem(cS, scale, c.cpy_lines) = NZ!Sem(c0S, scale, c0.cpy_lines)>>,
+        \* meaning without the opcode-unit lines; then the line CPython reports while each instruction runs (the
+        \* line at its opcode unit, behind any EXTENDED_ARG prefix), separately for instructions whose units all
+        \* have one line in the original and for those whose original line changes INSIDE the instruction
+        <<"P05.sem", (e.has_c0 /\ ok) => StripOp(sem) = StripOp(sem0)>>,
+        <<"P05.opline", (e.has_c0 /\ ok /\ Len(sem.instrs) = Len(sem0.instrs)) =>
+                  \A j \in DOMAIN sem0.instrs : (sem0.instrs[j][4] = sem0.instrs[j][5]) => sem.instrs[j][5] = sem0.instrs[j][5]>>,
+        <<"P05.opline_split", (e.has_c0 /\ ok /\ Len(sem.instrs) = Len(sem0.instrs)) =>
+                  \A j \in DOMAIN sem0.instrs : (sem0.instrs[j][4] # sem0.instrs[j][5]) => sem.instrs[j][5] = sem0.instrs[j][5]>>,
         <<"P05.nofree", (e.has_c0 /\ ok /\ ((6 \in c.flags) # (6 \in c0.flags))) =>
                   \* CO_NOFREE appears only when a cell variable that nothing references went away
                   (6 \in c.flags /\ Len(c0.freevars) = 0 /\ Len(c.cellvars) = 0 /\ Len(c0.cellvars) > 0)>>,
